@@ -20,8 +20,10 @@ _fuzz = fam_stream.Fuzz()
 _hunks = fam_hunks.HunksFam()
 _dom = fam_dom.Dom()
 _stats = fam_dom.Stats()
+_alias = fam_dom.Alias()
+_attrs = fam_dom.Attrs()
 
-FAMILIES = {f.name: f for f in [_split, _codec, _spelling, _stream, _calls, _foreign, _truncate, _order, _header, _chunk, _nesting, _fuzz, _hunks, _dom, _stats]}
+FAMILIES = {f.name: f for f in [_split, _codec, _spelling, _stream, _calls, _foreign, _truncate, _order, _header, _chunk, _nesting, _fuzz, _hunks, _dom, _stats, _alias, _attrs]}
 
 PROPS = {
     'C16': dict(families=[_split], trusted_base=[
